@@ -36,14 +36,14 @@ def other_warnings(ws):
     return [w.category.__name__ for w in ws if not issubclass(w.category, exc.MosRoMgrWarning)]
 
 
-def num_ticks(text):
-    """float(text) in ticks of 1/8 s (None = float() raises ValueError)"""
+def num_us(text):
+    """float(text) in microseconds, to the nearest one (None = float() raises ValueError)"""
     try:
         f = float(text)
     except ValueError:
         return None
     try:
-        return int(Fraction(f) * 8)
+        return round(Fraction(f) * 1000000)
     except (ValueError, OverflowError):
         return None
 
@@ -68,7 +68,7 @@ def oracle_tables(elems):
             if e.text is None:
                 continue
             if e.tag in NUM_TAGS:
-                nums[e.text] = num_ticks(e.text)
+                nums[e.text] = num_us(e.text)
             elif e.tag in TIME_TAGS:
                 times[e.text] = time_us(e.text)
     return nums, times
@@ -151,9 +151,12 @@ def run_coll(texts, allow_incomplete, strict, how='strings', tmpdir=None, again=
         objects = {}
         for i, t in enumerate(texts):
             # key names whose lexicographic order differs from the numeric message-ID order
-            objects['ro/%d-%s.mos.xml' % ((i * 7) % 11, 'abcdefgh'[i % 8])] = t.encode('utf-8')
+            # and with characters that URL decoding, stripping or normalising would change
+            objects['ro/%d-%s%s.mos.xml' % ((i * 7) % 11, 'abcdefgh'[i % 8], ['', '+0100', '%41', ' sp', '/./x', '\u00e9'][i % 6])] = t.encode('utf-8')
         objects['ro/ignored.txt'] = b'not a mos file'
-        fakes3.install(s3mod, objects=objects)
+        listed = list(objects)
+        decoy = b'<mos><mosID>DECOY</mosID><ncsID>NCS</ncsID><messageID>424242</messageID><roReadyToAir><roID>DECOY</roID><roAir>READY</roAir></roReadyToAir></mos>'
+        fakes3.install(s3mod, objects=fakes3.with_decoys(objects, decoy), bucket='b', listed=listed)
     try:
         with warnings.catch_warnings(record=True) as ws:
             warnings.simplefilter('always')
